@@ -2,6 +2,7 @@
 // util/bit_packing.hh, util/sorted_uniform.hh, util/probing_hash_table.hh and prints one
 // canonical result line, mirrored by lean/Driver/C20.lean.
 #include "util/bit_packing.hh"
+#include "util/sorted_uniform.hh"
 #include <cstdio>
 #include <cstdlib>
 #include <cstring>
@@ -17,6 +18,8 @@ int main() {
   std::vector<uint8_t> mem;   // logical size; allocation has 8 spare bytes for the 64-bit window
   uint8_t *buf = NULL;
   size_t size = 0;
+  std::vector<uint64_t> arr;
+  std::vector<uint32_t> arr32;
   while (std::getline(std::cin, line)) {
     std::istringstream in(line);
     std::string op;
@@ -57,6 +60,52 @@ int main() {
       uint64_t o; in >> o;
       util::FloatEnc e; e.f = util::ReadNonPositiveFloat31(buf, o);
       printf("%u\n", e.i);
+    } else if (op == "arr") {
+      arr.clear();
+      uint64_t x;
+      while (in >> x) arr.push_back(x);
+      arr32.assign(arr.begin(), arr.end());
+      puts("ok");
+    } else if (op == "suf32") {
+      uint64_t k; in >> k;
+      const uint32_t *out = NULL;
+      const uint32_t *b = arr32.empty() ? NULL : &arr32[0];
+      bool f = util::SortedUniformFind<const uint32_t*, util::IdentityAccessor<uint32_t>, util::Pivot32>(
+          util::IdentityAccessor<uint32_t>(), b, b + arr32.size(), (uint32_t)k, out);
+      puts(!f ? "absent" : (*out == (uint32_t)k ? "found" : "found-wrong"));
+    } else if (op == "suf64") {
+      uint64_t k; in >> k;
+      const uint64_t *out = NULL;
+      const uint64_t *b = arr.empty() ? NULL : &arr[0];
+      bool f = util::SortedUniformFind<const uint64_t*, util::IdentityAccessor<uint64_t>, util::Pivot64>(
+          util::IdentityAccessor<uint64_t>(), b, b + arr.size(), k, out);
+      puts(!f ? "absent" : (*out == k ? "found" : "found-wrong"));
+    } else if (op == "bsuf32") {
+      // the trie call site: BoundedSortedUniformFind(begin - 1, 0, end, max_vocab, key)
+      uint64_t k, mx; in >> k >> mx;
+      const uint32_t *out = NULL;
+      std::vector<uint32_t> padded(arr32.size() + 2, 0xdeadbeef);   // guards before and after: must never be read
+      for (size_t i = 0; i < arr32.size(); ++i) padded[i + 1] = arr32[i];
+      const uint32_t *b = &padded[1];
+      bool f = util::BoundedSortedUniformFind<const uint32_t*, util::IdentityAccessor<uint32_t>, util::Pivot32>(
+          util::IdentityAccessor<uint32_t>(), b - 1, (uint32_t)0, b + arr32.size(), (uint32_t)mx, (uint32_t)k, out);
+      puts(!f ? "absent" : (*out == (uint32_t)k && out >= b && out < b + arr32.size() ? "found" : "found-wrong"));
+    } else if (op == "bsuf64") {
+      uint64_t k, mx; in >> k >> mx;
+      const uint64_t *out = NULL;
+      std::vector<uint64_t> padded(arr.size() + 2, 0xdeadbeefdeadbeefULL);
+      for (size_t i = 0; i < arr.size(); ++i) padded[i + 1] = arr[i];
+      const uint64_t *b = &padded[1];
+      bool f = util::BoundedSortedUniformFind<const uint64_t*, util::IdentityAccessor<uint64_t>, util::Pivot64>(
+          util::IdentityAccessor<uint64_t>(), b - 1, (uint64_t)0, b + arr.size(), mx, k, out);
+      puts(!f ? "absent" : (*out == k && out >= b && out < b + arr.size() ? "found" : "found-wrong"));
+    } else if (op == "bin") {
+      uint64_t k; in >> k;
+      const uint64_t *out = NULL;
+      const uint64_t *b = arr.empty() ? NULL : &arr[0];
+      bool f = util::BinaryFind<const uint64_t*, util::IdentityAccessor<uint64_t> >(
+          util::IdentityAccessor<uint64_t>(), b, b + arr.size(), k, out);
+      puts(!f ? "absent" : (*out == k ? "found" : "found-wrong"));
     } else if (op == "dump") {
       for (size_t i = 0; i < size; ++i) printf("%02x", buf[i]);
       puts("");
